@@ -22,6 +22,16 @@ def rot():
     return np.eye(3, dtype="<f4")
 
 
+class Named(str):
+    """a Python string that is not a plain str: a str subclass whose str() is something else than its text — what a member of
+    `class Marker(str, Enum)` is.  As a label or a key it IS its text."""
+
+    def __str__(self):
+        return "Marker." + str.__str__(self).upper()
+
+    __repr__ = __str__
+
+
 def make_item(kind, label, n, salt=0):
     """an item of the block kind's item class with n frames / samples and content determined by (label, n, salt)"""
     base = (abs(hash((label, n, salt))) % 1000) / 10.0
